@@ -13,7 +13,9 @@ RULE = ('cases = {SDML, SDML_Supervised} x prior {identity, covariance, '
         'outside (failure clause) the range that keeps the graphical-lasso '
         'input positive definite x seeded labelled pair sets. The learned M '
         'is judged against an independent ADMM solution of the documented '
-        'objective with S recomputed from scratch by the harness. An '
+        'objective with S recomputed from scratch by the harness; the call '
+        'to the graphical-lasso solver is intercepted and the problem it is '
+        'handed (matrix and penalty) compared with the documented one. An '
         'evaluation is one clause on one fit. distinct_nontrivial counts '
         'distinct (estimator, configuration, pair set) whose reference '
         'solver converged (primal/dual residual < 1e-9).')
@@ -24,8 +26,29 @@ TIMEOUT = {'quick': 1200, 'thorough': 4 * 3600}
 CASE_TIMEOUT = {'quick': 300, 'thorough': 900}
 
 
+_cap = {'solver': []}
+
+
 def setup_worker(tier=None):
   common.setup_worker(tier)
+  from ..instrument import names
+  import metric_learn.sdml as sdml_mod
+
+  def factory(orig):
+    def graphical_lasso(emp_cov, *a, **k):
+      rec = {'emp_cov': np.array(emp_cov, copy=True),
+             'alpha': k.get('alpha', a[0] if a else None), 'raised': None}
+      _cap['solver'].append(rec)
+      try:
+        r = orig(emp_cov, *a, **k)
+      except Exception as e:
+        rec['raised'] = repr(e)[:200]
+        raise
+      rec['precision'] = np.array(r[1], copy=True)
+      return r
+    return graphical_lasso
+  if not getattr(sdml_mod, 'HAS_SKGGM', False):
+    names.patch_name(sdml_mod, 'graphical_lasso', factory)
 
 
 def cases(tier, seed):
@@ -60,6 +83,7 @@ def required(tier):
   q = tier == 'quick'
   n = 25 if q else 300
   return {'C13.M-spd': n, 'C13.objective-gap': n, 'C13.not-below-optimum': n,
+          'C13.solver-input-documented': n,
           'C13.failure-clause': 4 if q else 50}
 
 
@@ -101,6 +125,20 @@ def admm_glasso(S, alpha, rho=1.0, iters=50000, tol=1e-11):
         rho /= 2.0
         U = U * 2.0
   return Z, res / max(1.0, np.abs(Z).max())
+
+
+def _judge_solver_input(j, call, S, alpha, det):
+  """The graphical-lasso solver is handed the documented problem: the matrix
+  M0^-1 + balance_param * sum_i y_i v_i v_i^T and the sparsity penalty."""
+  E_ = np.asarray(call['emp_cov'], dtype=float)
+  ws = np.linalg.eigvalsh((S + S.T) / 2)
+  cond = np.abs(ws).max() / max(np.abs(ws).min(), 1e-300)
+  ok_shape = E_.shape == S.shape
+  j.check('C13.solver-input-documented',
+          ok_shape and np.abs(E_ - S).max() <= 1e-9 * np.abs(S).max() *
+          max(1.0, 1e-6 * cond) and call['alpha'] == alpha,
+          dict(det, max_diff=float(np.abs(E_ - S).max()) if ok_shape
+               else 'shape', alpha_given=call['alpha'], alpha_documented=alpha))
 
 
 def run_case(spec, j):
@@ -164,6 +202,7 @@ def run_case(spec, j):
   det = {'est': name, 'params': spec['params'], 'balance_param': b,
          'bmax': bmax, 'd': d, 'fail_clause': spec['fail']}
   api.set_judge(j, well_formed=not spec['fail'])
+  del _cap['solver'][:]
   raised = None
   with Quiet() as q:
     try:
@@ -188,20 +227,30 @@ def run_case(spec, j):
   if raised is not None:
     if isinstance(raised, RuntimeError) and 'graphical' in str(raised):
       # allowed by the property ("when the solver cannot produce a finite
-      # SPD matrix fit raises RuntimeError") -- but on a well-conditioned
-      # positive definite input (condition number < 50; scikit-learn's solver
-      # was seen to give up at 2.4e3) a finite SPD minimiser is easy to
-      # compute, so giving up there is judged
+      # SPD matrix fit raises RuntimeError") - provided the solver was handed
+      # the documented problem and it was the solver that failed
       S = M0inv + b * Lm
-      ws = np.linalg.eigvalsh((S + S.T) / 2)
-      if ws.min() > 0 and ws.max() / ws.min() < 50:
-        j.violated('C13.solves-pd-input',
-                   dict(det, cond_S=ws.max() / ws.min(),
-                        raised=str(raised)[-200:]),
-                   mechanism='sdml-gave-up-on-well-conditioned-input')
+      calls = list(_cap['solver'])
+      if len(calls) != 1:
+        j.skip('C13', 'solver-call-not-observed')
       else:
-        j.skip('C13', 'solver-gave-up-RuntimeError')
-        j.ok('C13.failure-clause')
+        _judge_solver_input(j, calls[0], S, alpha, det)
+        c0 = calls[0]
+        gave_up = c0['raised'] is not None
+        if not gave_up:
+          P = c0['precision']
+          wp = np.linalg.eigvalsh((P + P.T) / 2) if np.all(np.isfinite(P)) \
+              else np.array([np.nan])
+          gave_up = not (np.all(np.isfinite(P)) and wp.min() >= 0)
+        # (a RuntimeError although the solver returned a finite SPD matrix
+        # would be SDML's own doing)
+        j.check('C13.solves-pd-input', gave_up,
+                dict(det, solver_raised=c0['raised'],
+                     raised=str(raised)[-200:]),
+                mechanism='sdml-raised-although-solver-succeeded')
+        if gave_up:
+          j.skip('C13', 'solver-gave-up-RuntimeError')
+          j.ok('C13.failure-clause')
     else:
       j.violated('C13.fit-returns', dict(det, raised=repr(raised)[:300]),
                  mechanism='sdml-raised-' + type(raised).__name__)
@@ -210,6 +259,8 @@ def run_case(spec, j):
   nM = max(np.abs(M).max(), 1e-300)
   lam = np.linalg.eigvalsh((M + M.T) / 2)
   j.ok('C13.solves-pd-input')
+  if len(_cap['solver']) == 1:
+    _judge_solver_input(j, _cap['solver'][0], M0inv + b * Lm, alpha, det)
   j.check('C13.M-spd', bool(np.all(np.isfinite(M))) and
           np.abs(M - M.T).max() <= 1e-9 * nM and lam.min() > 0,
           dict(det, lambda_min=lam.min()))
